@@ -224,7 +224,7 @@ func enumAllocScripts(L int, emit func(allocCase)) {
 }
 
 const allocHeader = `From Coq Require Import List NArith Bool.
-From GS Require Import Base Alloc.
+From GS Require Import Base Alloc AllocOrder.
 Import ListNotations.
 Open Scope N_scope.
 Definition mk_obs := Build_obs.
@@ -261,6 +261,7 @@ func driveAlloc(c *ctx) error {
 		{Name: "MISMATCH", Fn: "case_agrees"},
 		{Name: "MON13", Fn: "case_mon13"},
 		{Name: "MON14", Fn: "case_mon14"},
+		{Name: "MON14X", Fn: "case_mon14x"},
 	})
 	w.Stats.Rule = "scripts of allocate/release/release-peer over 1-4 peers on the real allocator.Allocator; " +
 		"70% stateful (releases mirror earlier allocations), 30% free; 10% with limits near 2^64 and hostile amounts; " +
